@@ -82,8 +82,15 @@ def check(ctx):
                 elif r[0] == 'global':
                     problems.append(f'writes module-level object {r[1]} shared by all parser instances')
                 elif r[0] == 'param':
-                    problems.append(f'mutates its argument `{r[1]}` (path {".".join(r[2])}): the caller\'s JSON '
-                                    f'document / namespace node is shared with other parses')
+                    # an internal step (private name, only called from inside the package) filling an object its caller hands
+                    # it is judged where the caller passes that object (the ownership analysis propagates the mutation to the
+                    # call site); the public parse functions own nothing they are given
+                    internal = fn.name.startswith('_') and not fn.name.startswith('__') and bool(cg.callers(fn))
+                    if internal:
+                        notes.append(f'fills the object its (internal) caller passes as `{r[1]}`: judged at the call sites')
+                    else:
+                        problems.append(f'mutates its argument `{r[1]}` (path {".".join(r[2])}): the caller\'s JSON '
+                                        f'document / namespace node is shared with other parses')
                 elif r[0] == 'self':
                     if is_ctor:
                         notes.append('initialises the object under construction')
@@ -129,7 +136,10 @@ def check(ctx):
             if a.arg in ('self', 'cls'):
                 continue
             n_ns += 1
-            if a.arg in mp:
+            if a.arg in mp and fn.name.startswith('_') and not fn.name.startswith('__') and cg.callers(fn):
+                run.holds('C16.no-sharing', fn.module.name, fn.qualname, f'{fn.qualname}({a.arg})',
+                          'internal step that fills an object of its caller: judged at the call sites', nontrivial=False)
+            elif a.arg in mp:
                 run.violation('C16.no-sharing', fn.module.name, fn.qualname, f'{fn.qualname}({a.arg})',
                               'may mutate its argument: ' + ' <- '.join(mp[a.arg].chain()), node=mp[a.arg].node)
             else:
